@@ -17,17 +17,17 @@ import (
 )
 
 type Clause struct {
-	Kind    string // requires ensures modifies invariant decreases
-	Label   string
-	Props   []string // properties this clause carries (default: function's)
-	Text    string
-	Expr    ast.Expr
-	File    string
-	Line    int
-	Pkg     string
-	Derived bool // `derives`: follows from the ensures clauses named in From
+	Kind       string // requires ensures modifies invariant decreases
+	Label      string
+	Props      []string // properties this clause carries (default: function's)
+	Text       string
+	Expr       ast.Expr
+	File       string
+	Line       int
+	Pkg        string
+	Derived    bool   // `derives`: follows from the ensures clauses named in From
 	AssumedWhy string // `assumes[label] E :: reason`: a postcondition used at call sites but NOT proved (listed in the trusted base)
-	From    []string
+	From       []string
 }
 
 type LoopSpec struct {
@@ -48,8 +48,8 @@ type Contract struct {
 	ModGiven   bool
 	Loops      map[int]*LoopSpec
 	AltLoops   map[int]*LoopSpec // `loop k alt invariant|decreases`: a second candidate set of loop clauses (see retryAltLoops)
-	Assumed    bool   // dependency contract: never verified, only used
-	Trusted    string // reason if the body is not verified although in repo
+	Assumed    bool              // dependency contract: never verified, only used
+	Trusted    string            // reason if the body is not verified although in repo
 	Pure       bool
 	Allocs     string // "none" | "" (may allocate)
 	File       string
